@@ -162,6 +162,23 @@ func (x *Exec) verifyFunc(fn *ssa.Function, c *FuncContract) (err error) {
 		invGuards[r.Label] = g
 		st.assume(mkImp(g, env.evalBool(r.E)))
 	}
+	// per-argument facts of a callback (iterpost): assumed for an arbitrary earlier argument
+	// tuple q (they were established by that invocation), to be shown again at the exit
+	// (stability), and shown for this invocation's own arguments (establishment)
+	var shadow map[string]Value
+	if len(c.IterPost) > 0 {
+		shadow = map[string]Value{}
+		for k, v := range names {
+			shadow[k] = v
+		}
+		for _, p := range fn.Params {
+			shadow[p.Name()] = x.symbolic(st, p.Type(), "q."+p.Name())
+		}
+		senv := &SpecEnv{x: x, st: st, old: st, names: shadow, pkg: fn.Pkg.Pkg, pre: env.pre, preNames: env.preNames}
+		for _, r := range c.IterPost {
+			st.assume(senv.evalBool(r.E))
+		}
+	}
 	if len(invGuards) > 0 {
 		defer func() {
 			for _, o := range x.obls[firstObl:] {
@@ -269,6 +286,31 @@ func (x *Exec) verifyFunc(fn *ssa.Function, c *FuncContract) (err error) {
 		for _, e := range c.IterInv {
 			if !x.boundedRun {
 				x.oblige(o.st, "iter-keep", e.Label, penv.evalBool(e.E), fn.Pos())
+			}
+		}
+		if len(c.IterPost) > 0 && !x.boundedRun {
+			// own arguments (entry values) with the captured variables as they are now
+			own := map[string]Value{}
+			for k, v := range penv.names {
+				own[k] = v
+			}
+			for _, p := range fn.Params {
+				own[p.Name()] = names[p.Name()]
+			}
+			oenv := *penv
+			oenv.names = own
+			sh := map[string]Value{}
+			for k, v := range penv.names {
+				sh[k] = v
+			}
+			for _, p := range fn.Params {
+				sh[p.Name()] = shadow[p.Name()]
+			}
+			senv := *penv
+			senv.names = sh
+			for _, e := range c.IterPost {
+				x.oblige(o.st, "iterpost-establish", e.Label, oenv.evalBool(e.E), fn.Pos())
+				x.oblige(o.st, "iterpost-stable", e.Label, senv.evalBool(e.E), fn.Pos())
 			}
 		}
 		if c.HasAssign {
